@@ -12,6 +12,8 @@
 //! | 2 bytes  |  16 bytes           | 2 bytes         | 1 byte        | 2 bytes   |
 //! +----------+---------------------+-----------------+---------------+-----------+
 
+#[cfg(trusttunnel_verif)]
+use crate::verif::ring;
 use crate::{downstream, forwarder, http_datagram_codec, icmp_utils, net_utils};
 use bytes::{Buf, BufMut, Bytes, BytesMut};
 use ring::rand::SecureRandom;
